@@ -73,7 +73,8 @@ func (c17Stream) Generate(rng *rand.Rand, n int, thorough bool) []Case {
 			if strings.Contains(f, "::1") {
 				t = 0 // the test certificate names 127.0.0.1 / localhost only
 			}
-			cs = append(cs, Case{Line: fmt.Sprintf("c17 kind=poll form=%s tls=%d", hx([]byte(f)), t), Kind: "poll"})
+			// (silent: another peer has connected just before and says nothing - on a TLS listener, no ClientHello)
+			cs = append(cs, Case{Line: fmt.Sprintf("c17 kind=poll form=%s tls=%d silent=%d", hx([]byte(f)), t, rng.Intn(2)), Kind: "poll"})
 		}
 	}
 	return cs
@@ -266,6 +267,12 @@ func (c17Stream) Impl(c Case) string {
 	}
 	// the first instant Ready() is observed true: connect and be served
 	verdict := "ok"
+	if p["silent"] == "1" {
+		if sp, err := net.DialTimeout("tcp", dialAddr, 3*time.Second); err == nil {
+			defer sp.Close()
+			time.Sleep(20 * time.Millisecond)
+		}
+	}
 	var cl *rawClient
 	if p["tls"] == "1" {
 		cl, err = dialRaw(dialAddr, cliTLS)
